@@ -211,4 +211,56 @@ def periodMerge (a b : List Cell) (suffix : Option String) : Except Err (List Ce
   let out ← a.mapM (periodMergeCell b suffix)
   Triangle.ofCells out
 
+/-! ## the regrouping loops of `add_statics` / `period_merge`, literally
+
+`addStatics` / `periodMerge` above leave out the regrouping Python performs before the final
+`Triangle(...)`. The literal renderings below follow the loops statement by statement;
+`Properties.C10.addStaticsLit_eq` / `periodMergeLit_eq` prove them equal to the direct forms on
+triangles (distinct coordinates), so every theorem about the direct forms is a theorem about these. -/
+
+/-- `groups.get(k, [])` / `defaultdict(list)[k]` on a `groupBy` table -/
+def groupGet {α κ} [BEq κ] (g : List (κ × List α)) (k : κ) : List α :=
+  match g.find? (fun e => e.1 == k) with
+  | some p => p.2
+  | none => []
+
+/-- `source_indexed.get(cell.period)` with
+`source_indexed = valmap(lambda row: sorted(row, key=evaluation_date)[-1], groupby(period, source_slice.cells))` -/
+def sourceIndexedGet (srcSlice : List Cell) (c : Cell) : Option Cell :=
+  match (groupBy (fun s : Cell => (s.ps, s.pe)) srcSlice).find? (fun e => e.1 == (c.ps, c.pe)) with
+  | some e => lastBy? evLe e.2
+  | none => none
+
+/-- `_add_statics_slice(slice, source_slice, statics)` -/
+def addStaticsSliceLit (slc srcSlice : List Cell) (statics : List String) : List Cell :=
+  slc.map fun c =>
+    match sourceIndexedGet srcSlice c with
+    | some s => c.addStatics s statics
+    | none => c
+
+/-- `add_statics`: loop over `triangle.slices.items()`, `source.slices.get(key)`, concatenate,
+`Triangle(rich_cells)` -/
+def addStaticsLit (t source : List Cell) (statics : List String) : Except Err (List Cell) :=
+  let sourceSlices := Triangle.slices source
+  Triangle.ofCells ((Triangle.slices t).flatMap fun e =>
+    match sourceSlices.find? (fun s => s.1 == e.1) with
+    | some s => addStaticsSliceLit e.2 s.2 statics
+    | none => e.2)
+
+/-- one iteration of `for idx, cells in tri1_cells.items()` -/
+def periodMergeGroupLit (tri2 : List ((Date × Date × Metadata) × List Cell)) (suffix : Option String)
+    (e : (Date × Date × Metadata) × List Cell) : Except Err (List Cell) :=
+  match groupGet tri2 e.1 with
+  | [] => .ok e.2
+  | [r] => .ok (e.2.map fun c => overwriteValues c r suffix)
+  | _ => .error .valueError
+
+/-- `period_merge`: two `defaultdict(list)` keyed `(period_start, period_end, metadata)`, loop over
+the left one in insertion order, `Triangle(output_cells)` -/
+def periodMergeLit (a b : List Cell) (suffix : Option String) : Except Err (List Cell) := do
+  if kindMismatch a b then throw .valueError
+  let idx := fun c : Cell => (c.ps, c.pe, c.md)
+  let out ← (groupBy idx a).mapM (periodMergeGroupLit (groupBy idx b) suffix)
+  Triangle.ofCells out.flatten
+
 end Bermuda
